@@ -5,7 +5,7 @@ META = {
     'text': 'Lean 4 theorems: in the handler model every rejected write leaves the core tables equal (all states, all '
             'requests), multi-entity writes take effect inside one transaction; the model is tied to the code by '
             'differential histories with full table dumps before/after every rejected request and a table-equality '
-            'monitor on the real database.',
+            'monitor on the real database; beyond sequences, every interleaving of pairs of racing writes on the real application is judged by the serial-order oracle (a request answered with an error leaves no trace also when another request is in flight).',
     'level_note': 'trusted: Lean kernel; correspondence sampled; transaction atomicity of SQLite/enginefacade.',
     'technique': 'Lean 4 proof (case analysis over failing stages) + model/implementation correspondence',
     'design_ref': 'DESIGN.md section 5, C04',
